@@ -211,3 +211,158 @@ PROPS["C04"] = {"jobs": c04_jobs, "assumptions": COMMON_ASSUME + [
     "history quantifier: this check covers a fresh decoder; independence from earlier history is C17/C18's step lemma (an unsegmented message only erases its endpoint's entry)",
     "validity oracle is written independently in harness/dec.cpp expectValid; cases the property leaves open (CAN error position without flags, Ethernet tx-port-down/truncated, interface status > 2) are not asserted either way"],
     "level": "bounded symbolic model checking of decode against an independent big-endian reader and structure rules"}
+
+
+# ------------------------------------------------------------------ frame sequences (C05, C06, C17, C18)
+def seq_shape(frames, pfx, samedev=0):
+    """frames: list of dicts with keys seg, ep, len, trail, cnt, vx, tx, bad, kind"""
+    d = {"F": len(frames), "PFX": pfx, "SAMEDEV": samedev}
+    for i, fr in enumerate(frames):
+        for k, dflt in (("seg", 0), ("ep", 0), ("len", 8), ("trail", 0), ("cnt", i), ("vx", 0), ("tx", 0), ("bad", 0), ("kind", 0)):
+            d["%s_%d" % (k.upper(), i)] = fr.get(k, dflt)
+    return d
+
+
+def fr(seg, ep=0, ln=8, trail=0, cnt=None, **kw):
+    d = dict(seg=seg, ep=ep, len=ln, trail=trail, **kw)
+    if cnt is not None:
+        d["cnt"] = cnt
+    return d
+
+
+SEQ_SYM = ("device/stream ids of both endpoints (distinct), both start sequence counters (all 65536 values: the wrap is inside every query), "
+           "payload and trailing bytes, timestamps, interface ids, non-segmentation flag bits")
+SEQ_OUT = "more than 4 frames per sequence, segments > 24 declared bytes, more than 2 endpoints, typed payloads (generic payload type 0xFE is used)"
+
+
+def seq_jobs(shapes_quick, shapes_thorough):
+    jobs = []
+    seen = set()
+    for tier, shapes in (("quick", shapes_quick), ("thorough", shapes_thorough)):
+        for d in shapes:
+            key = tuple(sorted(d.items()))
+            if key in seen:
+                continue
+            seen.add(key)
+            jobs.append(Job("seq.cpp", "h_seq", defs=d, unwind=400, unwindset={("Decoder6decode", None): 3, ("_M_realloc_insert", None): 3, ("_Hashtable", None): 4, ("_M_release", None): 3},
+                            tier=tier, in_max=16 + d["F"] * 64, mem_gb=8, sym=SEQ_SYM, outside=SEQ_OUT, variant="mapmodel"))
+    return jobs
+
+
+def c05_shapes(pfx=5):
+    q = [
+        seq_shape([fr(1), fr(3)], pfx), seq_shape([fr(1, trail=4), fr(3, trail=3)], pfx), seq_shape([fr(1, ln=16), fr(2, ln=5), fr(3, ln=0)], pfx),
+        seq_shape([fr(1, ep=0, cnt=0), fr(1, ep=1, cnt=0), fr(3, ep=0, cnt=1), fr(3, ep=1, cnt=1)], pfx),
+        seq_shape([fr(1, ep=0, cnt=0), fr(0, ep=1, cnt=0), fr(3, ep=0, cnt=1)], pfx), seq_shape([fr(1, ep=0, cnt=0), fr(1, ep=1, cnt=0), fr(3, ep=0, cnt=1), fr(3, ep=1, cnt=1)], pfx, samedev=1),
+    ]
+    t = [seq_shape([fr(1, ln=a, trail=ta), fr(3, ln=b, trail=tb)], pfx) for a in (0, 1, 8, 24) for b in (0, 1, 8, 24) for ta in (0, 5) for tb in (0, 5)] + \
+        [seq_shape([fr(1, ln=a), fr(2, ln=b), fr(2, ln=c), fr(3, ln=e)], pfx) for (a, b, c, e) in ((8, 8, 8, 8), (1, 0, 24, 3), (24, 24, 24, 24))] + \
+        [seq_shape([fr(1, ep=0, cnt=0), fr(1, ep=1, cnt=0), fr(3, ep=1, cnt=1), fr(3, ep=0, cnt=1)], pfx, samedev=sd) for sd in (0, 1, 2)] + \
+        [seq_shape([fr(1, ep=0, cnt=0), fr(0, ep=1, cnt=5), fr(2, ep=0, cnt=1), fr(3, ep=0, cnt=2)], pfx, samedev=sd) for sd in (0, 1, 2)]
+    return q, t
+
+
+PROPS["C05"] = {"jobs": lambda: seq_jobs(*c05_shapes(5)), "assumptions": COMMON_ASSUME + [
+    "sequence shape (frame count, segment kind, endpoint pattern, declared and trailing byte counts, counter offsets) is concrete; ids, start counters and contents are symbolic",
+    "schedule quantifier: the shapes are the interleavings of up to 4 frames over 2 endpoints listed in the evidence; the lift to all interleavings uses C18's isolation step (DESIGN.md section 2)",
+    "expected deliveries come from an independent reference reassembler in harness/seq.cpp"],
+    "level": "bounded symbolic model checking of frame sequences through the real Decoder against a reference reassembler"}
+
+
+def seq_shape2(frames, pfx, samedev=0):
+    d = seq_shape(frames, pfx, samedev)
+    for i, f in enumerate(frames):
+        if "dup" in f:
+            d["DUP_%d" % i] = f["dup"]
+    return d
+
+
+def c06_shapes():
+    P = 6
+    q = [
+        seq_shape2([fr(1, cnt=0), fr(2, cnt=1), fr(2, cnt=1, dup=1), fr(3, cnt=2)], P),         # duplicated intermediary
+        seq_shape2([fr(1, cnt=0), fr(3, cnt=2)], P),                                             # dropped intermediary
+        seq_shape2([fr(1, cnt=0), fr(3, cnt=2), fr(2, cnt=1)], P),                               # swapped
+        seq_shape2([fr(1, cnt=0), fr(3, cnt=1, vx=1), fr(1, cnt=2), fr(3, cnt=3)], P),           # corrupt version, then recovery
+        seq_shape2([fr(1, cnt=0), fr(3, cnt=1, tx=1), fr(0, cnt=2)], P),                         # corrupt type, then an unsegmented message
+        seq_shape2([fr(1, cnt=0, ln=8), fr(1, cnt=2, ln=4), fr(3, cnt=1, ln=8), fr(3, cnt=3, ln=4)], P),  # two messages, frames swapped: no mix of fragments
+        seq_shape2([fr(1, cnt=0), fr(1, cnt=0, dup=0), fr(3, cnt=1)], P),                        # duplicated first segment
+    ]
+    t = [
+        seq_shape2([fr(1, cnt=0), fr(2, cnt=1), fr(3, cnt=2), fr(3, cnt=2, dup=2)], P),
+        seq_shape2([fr(2, cnt=1), fr(1, cnt=0), fr(3, cnt=2)], P),
+        seq_shape2([fr(3, cnt=2), fr(1, cnt=0), fr(2, cnt=1), fr(3, cnt=2, dup=0)], P),
+        seq_shape2([fr(1, cnt=0), fr(2, cnt=1, vx=1), fr(3, cnt=2)], P),
+        seq_shape2([fr(1, cnt=0), fr(2, cnt=1, tx=1), fr(3, cnt=2)], P),
+        seq_shape2([fr(1, cnt=0), fr(0, cnt=1), fr(3, cnt=2)], P),
+        seq_shape2([fr(1, cnt=0, ep=0), fr(1, cnt=0, ep=1), fr(3, cnt=1, ep=1), fr(3, cnt=2, ep=0)], P),
+        seq_shape2([fr(1, cnt=0, ep=0), fr(3, cnt=1, ep=1), fr(3, cnt=1, ep=0)], P, samedev=1),
+        seq_shape2([fr(1, cnt=0), fr(3, cnt=1, bad=1), fr(1, cnt=2), fr(3, cnt=3)], P),
+        seq_shape2([fr(1, cnt=0), fr(2, cnt=1), fr(1, cnt=2), fr(3, cnt=3)], P),
+        seq_shape2([fr(1, cnt=0, ln=3), fr(2, cnt=1, ln=5), fr(2, cnt=3, ln=7), fr(3, cnt=4, ln=2)], P),
+    ]
+    return q, t
+
+
+def c17_shapes():
+    P = 17
+    q = [
+        seq_shape2([fr(2, cnt=5), fr(3, cnt=6)], P),                         # orphan segments: no (default-constructed) entry may survive
+        seq_shape2([fr(1), fr(3)], P),                                       # completed
+        seq_shape2([fr(1, trail=6), fr(0, cnt=1)], P),                       # superseded by an unsegmented message
+        seq_shape2([fr(1), fr(3, cnt=1, bad=1)], P),                         # aborted by an invalid message
+        seq_shape2([fr(1), fr(3, cnt=1, bad=2)], P),
+        seq_shape2([fr(1, ep=0, cnt=0), fr(1, ep=1, cnt=0), fr(3, ep=0, cnt=1)], P),
+        seq_shape2([fr(1), fr(0, kind=1), fr(0, kind=2), fr(2, cnt=1)], P),  # TECMP-routed and undersized buffers change nothing
+        seq_shape2([fr(1), fr(1, cnt=7, ln=3)], P),                          # superseded by a new first segment
+    ]
+    t = [
+        seq_shape2([fr(1), fr(2, cnt=1), fr(2, cnt=3), fr(3, cnt=4)], P),
+        seq_shape2([fr(3, cnt=0, ep=0), fr(2, cnt=0, ep=1), fr(1, cnt=1, ep=0), fr(3, cnt=1, ep=1)], P),
+        seq_shape2([fr(1, vx=1), fr(3, cnt=1), fr(1, cnt=2, tx=1), fr(3, cnt=3)], P),
+        seq_shape2([fr(1, ep=0, cnt=0), fr(1, ep=1, cnt=0), fr(0, ep=0, cnt=1, bad=1), fr(3, ep=1, cnt=1)], P, samedev=1),
+        seq_shape2([fr(1, ep=0, cnt=0), fr(1, ep=1, cnt=0), fr(0, ep=0, cnt=1, bad=1), fr(3, ep=1, cnt=1)], P, samedev=2),
+    ]
+    return q, t
+
+
+def c18_shapes():
+    P = 18
+    foreign = [fr(0, ep=1, cnt=0), fr(1, ep=1, cnt=0), fr(2, ep=1, cnt=9), fr(3, ep=1, cnt=9), fr(0, ep=1, cnt=0, bad=1), fr(0, ep=1, cnt=0, bad=2), fr(0, ep=1, kind=1), fr(0, ep=1, kind=2)]
+    q = [seq_shape2([fr(1, ep=0, cnt=0), x, fr(3, ep=0, cnt=1)], P, samedev=sd) for x, sd in zip(foreign, (0, 1, 2, 1, 2, 1, 0, 0))]
+    t = [seq_shape2([fr(1, ep=0, cnt=0), x, fr(3, ep=0, cnt=1)], P, samedev=sd) for x in foreign for sd in (0, 1, 2)] + \
+        [seq_shape2([fr(1, ep=0, cnt=0), x, y, fr(3, ep=0, cnt=1)], P, samedev=1) for x in foreign[:4] for y in foreign[2:6]] + \
+        [seq_shape2([fr(1, ep=1, cnt=0), fr(1, ep=0, cnt=0), fr(3, ep=1, cnt=1), fr(3, ep=0, cnt=1)], P, samedev=sd) for sd in (0, 1, 2)]
+    return q, t
+
+
+SEQ_ASSUME = COMMON_ASSUME + [
+    "sequence shape (frame count, segment kind, endpoint pattern, declared/trailing byte counts, counter offsets, which frame is corrupted/duplicated) is concrete; start counters and contents are symbolic; endpoint ids are concrete representatives (distinct device / same device other stream / same stream other device)",
+    "Decoder's std::unordered_map is replaced by the fixed-capacity association-array model rt/stubinc/unordered_map (operator[] default-inserts, erase removes at most one entry): the real libstdc++ hashtable makes two-frame queries run out of memory (measured)",
+    "TECMP::Decoder::Decode is cut in these harnesses: it is a static function of (data,size) and cannot reach a Decoder's pending table",
+]
+PROPS["C05"]["assumptions"] = SEQ_ASSUME + ["the lift from the listed interleavings (<= 4 frames, 2 endpoints) to all interleavings uses C18's isolation step and induction over the history (DESIGN.md section 2)"]
+def c06_jobs():
+    q, t = c06_shapes()
+    q2, t2 = [], []
+    for d in q:
+        q2.append(dict(d, START0=65534, START1=65535))
+        t2.append(dict(d, START0=0, START1=7))
+        t2.append(dict(d, START0=65535, START1=65534))
+        t2.append(d)   # symbolic start counters (may exceed the budget: reported as inconclusive for that shape)
+    for d in t:
+        t2.append(dict(d, START0=65534, START1=65535))
+        t2.append(dict(d, START0=65533, START1=0))
+    return seq_jobs(q2, t2)
+
+
+PROPS["C06"] = {"jobs": c06_jobs, "assumptions": SEQ_ASSUME + [
+    "start counters are concrete representatives in the fault shapes (65534/65535 so that the wrap falls inside the message, 0, 65533); symbolic-start variants run in the thorough tier", "fault quantifier: the listed fault sequences (drop, duplicate, swap, corrupt version/type, at the listed positions) are enumerated as shapes; the oracle is the property itself: every delivered packet equals one sent message (sent messages are computed from the shape), and a clean uninterrupted run is delivered"],
+    "level": "bounded symbolic model checking of faulted frame sequences through the real Decoder (fault positions enumerated, contents and counters symbolic)"}
+PROPS["C17"] = {"jobs": lambda: seq_jobs(*c17_shapes()), "assumptions": SEQ_ASSUME + [
+    "pending table observed through the ASAM_CMP_VERIF friend hook; the model map's operator[] default-inserts like the real one, so an entry leaked by a lookup is visible",
+    "history quantifier: every listed sequence starts from an empty table; together with C18 (other entries untouched) the per-endpoint step covers any history by induction"],
+    "level": "bounded symbolic model checking of the pending-table contents after every decode call of a frame sequence"}
+PROPS["C18"] = {"jobs": lambda: seq_jobs(*c18_shapes()), "assumptions": SEQ_ASSUME + [
+    "isolation is checked as: the deliveries and pending entry of endpoint A are exactly those of the reference reassembler that sees only A's frames, whatever foreign frame (valid, invalid, orphan, TECMP-routed, undersized) is interleaved"],
+    "level": "bounded symbolic model checking of interleaved two-endpoint sequences against a per-endpoint reference"}
